@@ -27,6 +27,7 @@
 
 #include "hz.h"
 #include "engine.h"
+#include "ext.h"
 
 /* ---- state ----------------------------------------------------------------- */
 const struct plan *PL;
@@ -177,10 +178,12 @@ int live_objects(struct rthr *th)
 {
 	int i, n = 0, t = thr_idx(th);
 	for (i = 0; i < PL->nobj; i++)
-		if (PL->obj[i].owner == t && RO[i].registered)
+		if (PL->obj[i].owner == t)
 			switch (PL->obj[i].kind) {
 			case K_FD: case K_TIMER: case K_TASK: case K_EVENT: case K_RAW:
-				n++;
+				n += RO[i].registered;
+				break;
+			case K_NONE: case K_CHAN:
 				break;
 			default:
 				n += ext_live(i);
@@ -188,6 +191,16 @@ int live_objects(struct rthr *th)
 	if (th->td_registered)
 		n++;
 	n += th->ext_live;
+	return n;
+}
+
+/* upper bound: objects whose library-internal loop references may or may not be gone yet */
+int live_upper(struct rthr *th)
+{
+	int i, n = live_objects(th), t = thr_idx(th);
+	for (i = 0; i < PL->nobj; i++)
+		if (PL->obj[i].owner == t)
+			n += ext_maybe_live(i);
 	return n;
 }
 
@@ -203,21 +216,23 @@ static void ns_ts(int64_t ns, struct timespec *ts)
 
 /* freed-object table for ASan report classification */
 #define NFREED 4096
-static struct { uintptr_t a; size_t n; } freed[NFREED];
+static struct { uintptr_t a; size_t n; int kind; } freed[NFREED];
 static int nfreed;
-void note_freed(void *p, size_t n)
+void note_freed_kind(void *p, size_t n, int kind)
 {
 	if (nfreed < NFREED) {
 		freed[nfreed].a = (uintptr_t)p;
 		freed[nfreed].n = n;
+		freed[nfreed].kind = kind;
 		nfreed++;
 	}
 }
+void note_freed(void *p, size_t n) { note_freed_kind(p, n, K_NONE); }
 void obj_free_mem(int id)
 {
 	struct robj *o = &RO[id];
 	if (o->mem != NULL) {
-		note_freed(o->mem, o->memsz);
+		note_freed_kind(o->mem, o->memsz, PL->obj[id].kind);
 		free(o->mem);
 		o->mem = NULL;
 	}
@@ -1002,11 +1017,12 @@ static void cb_enter(void *ckp, int kind, int band, int var, int64_t x1, int64_t
 		th->cur_kind = kind;
 		th->cur_obj = id;
 		ext_cb(th, id, kind, band, x1, x2);
-		if (!have_viol())
+		if (!have_viol() && o->ncb <= 2 * CB_LIMIT)
 			run_actions(th, CTX_CB, id, (int)o->ncb);
 		/* level-triggered storms are cut off after CB_LIMIT invocations */
 		if (kind == K_FD && o->registered && o->ncb >= CB_LIMIT && o->hv[band] && !have_viol())
 			op_seth(th, id, band, 0);
+		ext_cb_exit(th, id, kind);
 		th->depth--;
 		th->cur_kind = save_kind;
 		th->cur_obj = save_obj;
@@ -1032,7 +1048,7 @@ static void obs_wait_enter(int tid, int prim, int64_t tmo, int nfds)
 		viol("C07.outside", "thread %d: kernel wait outside iv_main", thr_idx(th));
 	} else if (th->quit_req) {
 		viol("C07.no_return", "thread %d: loop polls again although iv_quit was called", thr_idx(th));
-	} else if (live_objects(th) == 0) {
+	} else if (live_upper(th) == 0) {
 		viol("C07.no_return", "thread %d: loop polls again although nothing is registered", thr_idx(th));
 	}
 	if (have_viol())
@@ -1073,8 +1089,19 @@ static void obs_wait_block(int tid)
 				viol("C07.block_with_due", "thread %d blocks in the kernel although timer obj %d (expiry %" PRId64 ") is due by the loop's own clock %" PRId64, t, i, o->expiry, th->last_clock);
 			break;
 		case K_EVENT:
-			if (o->post_done_seq > o->last_entry_seq)
-				viol("C08.lost", "thread %d blocks in the kernel with a completed, undelivered post on event obj %d", t, i);
+			/* A completed post may legitimately still be undelivered when the owner blocks: a
+			 * post that found the pending list non-empty relies on the kick of the poster that
+			 * found it empty, and that poster may not have sent it yet.  Only when no thread is
+			 * inside a post call for this owner is the wake-up truly lost. */
+			if (o->post_done_seq > o->last_entry_seq) {
+				int j, inflight = 0;
+				for (j = 0; j < PL->nobj; j++)
+					if (PL->obj[j].kind == K_EVENT && PL->obj[j].owner == t && RO[j].posting > 0)
+						inflight++;
+				inflight += ext_posts_in_flight(t);
+				if (!inflight)
+					viol("C08.lost", "thread %d blocks in the kernel with a completed, undelivered post on event obj %d and no other post in progress", t, i);
+			}
 			break;
 		case K_RAW:
 			if (o->post_done_seq > o->last_entry_seq)
@@ -1236,12 +1263,14 @@ static void asan_cb(const char *report)
 {
 	uintptr_t a = __asan_get_report_address ? (uintptr_t)__asan_get_report_address() : 0;
 	const char *d = __asan_get_report_description ? __asan_get_report_description() : "?";
-	int i, mine = 0;
+	int i, mine = 0, fkind = K_NONE;
 	char first[160];
 
 	for (i = 0; i < nfreed; i++)
-		if (a >= freed[i].a && a < freed[i].a + freed[i].n)
+		if (a >= freed[i].a && a < freed[i].a + freed[i].n) {
 			mine = 1;
+			fkind = freed[i].kind;
+		}
 	/* stable one-line summary: access kind + innermost library frame (no addresses, no pids) */
 	{
 		const char *p = report;
@@ -1271,9 +1300,16 @@ static void asan_cb(const char *report)
 	if (mine) {
 		viol("C01.uaf", "library touched an object the caller freed after unregister (%s %s) %s", d,
 		     __asan_get_report_access_type && __asan_get_report_access_type() ? "WRITE" : "READ", ext_uaf_hint());
-		viol(ext_uaf_prop(), "use after free of caller object: %s", d);
+		{
+			static const char *byk[K_MAX] = { [K_SIGNAL] = "C10.uaf", [K_WAIT] = "C11.uaf", [K_POOL] = "C13.uaf",
+				[K_ITEM] = "C12.uaf", [K_POPEN] = "C19.uaf", [K_INOT] = "C20.uaf", [K_WATCH] = "C20.uaf", [K_PUMP] = "C17.uaf" };
+			if (fkind > 0 && fkind < K_MAX && byk[fkind])
+				viol(byk[fkind], "use after free of a caller-owned %s object: %s in %s", kind_name(fkind), d, first);
+		}
 	}
 	viol("C18.memory", "%s %s in %s", d, __asan_get_report_access_type && __asan_get_report_access_type() ? "WRITE" : "READ", first);
+	if (!mine)
+		viol("ANY.memory", "%s %s in %s", d, __asan_get_report_access_type && __asan_get_report_access_type() ? "WRITE" : "READ", first);
 	(void)a;
 	if (VERBOSE)
 		fprintf(stderr, "%s\n", report);
@@ -1398,26 +1434,25 @@ static void *loop_thread(void *arg)
 		run_actions(th, CTX_SETUP, t, 0);
 		if (have_viol())
 			finish(1);
-		th->quit_req = 0;
-		th->in_main = 1;
-		th->main_entries++;
-		th->spin = 0;
-		simk_log(102, t, live_objects(th));
-		iv_main();
-		th->in_main = 0;
-		simk_log(103, t, live_objects(th));
-		SEQ++;
-		if (!th->quit_req && live_objects(th) > 0)
-			viol("C07.early_return", "thread %d: iv_main returned without iv_quit while %d object(s) are still registered", t, live_objects(th));
-		if (th->quit_req && !th->td_requested)
-			;
-		else if (!th->td_requested)
-			PROBE[PR_NATURAL_RETURN]++;
-		if (have_viol())
-			finish(1);
-		/* clean up what is still registered (after iv_quit): legal API use outside iv_main */
-		{
-			int i;
+		for (;;) {
+			int i, again;
+
+			th->quit_req = 0;
+			th->in_main = 1;
+			th->main_entries++;
+			th->spin = 0;
+			simk_log(102, t, live_objects(th));
+			iv_main();
+			th->in_main = 0;
+			simk_log(103, t, live_objects(th));
+			SEQ++;
+			if (!th->quit_req && live_objects(th) > 0)
+				viol("C07.early_return", "thread %d: iv_main returned without iv_quit while %d object(s) are still registered", t, live_objects(th));
+			if (!th->quit_req && !th->td_requested)
+				PROBE[PR_NATURAL_RETURN]++;
+			if (have_viol())
+				finish(1);
+			/* clean up what is still registered (after iv_quit): legal API use outside iv_main */
 			th->post_main = 1;
 			/* pinned objects: no new cross-thread post may start, and posts in progress
 			 * must have returned, before the owner may unregister them */
@@ -1434,11 +1469,21 @@ static void *loop_thread(void *arg)
 				iv_event_raw_unregister(&th->td_raw);
 				th->td_registered = 0;
 			}
-			/* memory kept for reuse is released now */
-			for (i = 0; i < PL->nobj; i++)
-				if (PL->obj[i].owner == t && !RO[i].registered && PL->obj[i].kind != K_CHAN)
-					obj_free_mem(i);
 			th->post_main = 0;
+			/* library-internal users of the loop (a released pool that is still draining, threads
+			 * that have not been joined, a closed popen whose child is alive) need the loop to
+			 * run on: re-enter it, as an application that called iv_quit too early would */
+			again = th->quit_req && live_upper(th) > 0;
+			if (!again)
+				break;
+			PROBE[PR_ONESHOT_REREG]++;
+		}
+		{
+			/* memory kept for reuse is released now */
+			int i;
+			for (i = 0; i < PL->nobj; i++)
+				if (PL->obj[i].owner == t && !RO[i].registered && PL->obj[i].kind != K_CHAN && ext_mem_idle(i))
+					obj_free_mem(i);
 		}
 		if (c == pt->cycles - 1 && !pt->deinit) {
 			PROBE[PR_THREAD_EXIT_NODEINIT]++;
@@ -1476,9 +1521,16 @@ static void *driver_thread(void *arg)
 	return NULL;
 }
 
+int engine_inited_threads_add(int d)
+{
+	inited_threads += d;
+	return inited_threads;
+}
+
 static void on_thread_exit(int tid)
 {
 	int t = sim2plan[tid];
+	ext2_on_thread_exit(tid);
 	if (t >= 0 && RT[t].inited) {
 		/* exited without iv_deinit: the key destructor has run by now */
 		RT[t].inited = 0;
@@ -1529,7 +1581,7 @@ void engine_run(const struct plan *p, int result_fd, int verbose)
 	(void)result_fd;
 	PL = p;
 	VERBOSE = verbose;
-	alarm(120);
+	alarm(getenv("IVSIM_WATCHDOG") ? (unsigned)atoi(getenv("IVSIM_WATCHDOG")) : 25);
 
 	cfg = p->cfg;
 	cfg.faults = (struct simk_fault *)p->faults;
@@ -1600,7 +1652,7 @@ void engine_run(const struct plan *p, int result_fd, int verbose)
 				hb_release(&th->td_raw);
 			} else if (th->td_requested) {
 				viol("C07.no_return", "thread %d: iv_main does not return after everything was unregistered by tear-down (%d live in the model)", i, live_objects(th));
-			} else if (th->quit_req || live_objects(th) == 0) {
+			} else if (th->quit_req || live_upper(th) == 0) {
 				viol("C07.no_return", "thread %d: blocked inside iv_main although %s", i, th->quit_req ? "iv_quit was called" : "nothing is registered");
 			}
 		}
